@@ -578,3 +578,137 @@ def mask_unmodelled(impl, model, ops=None):
         oi.append(a)
         om.append(b)
     return oi + list(impl[len(oi):]), om + list(model[len(om):])
+
+
+# ------------------------------------------------------------------------------------------ C05
+# One-to-many transactions, written from the property text.  A group is identified by its source service and its declared
+# child map; child ids are <from>-<to>-<index>.  `q status <child id>` answers the GLOBAL status of the child's group.
+
+class Group:
+    def __init__(self, frm, decl):
+        self.frm = frm
+        self.decl = decl               # {child id}
+        self.begun = set()
+        self.succeeded = set()
+        self.failed = False            # any child failed at begin / by receipt, or the group timed out
+        self.failed_at = None
+        self.deadline = None
+        self.finished = False          # all declared children succeeded
+
+
+def _group_of(tx):
+    if tx.kind != "ibtp" or tx.group is None:
+        return None
+    decl = set()
+    for p in tx.group.split(","):
+        if "=" not in p:
+            return None
+        t, i = p.rsplit("=", 1)
+        if t.count(":") != 1 or not i.isdigit():
+            return None
+        decl.add(f"1356:{tx.frm}-1356:{t}-{int(i)}")
+    return decl
+
+
+def mon_c05(h, obs):
+    hits = []
+    groups = {}        # key -> Group
+    of_child = {}      # child id -> group key
+    ambiguous = set()  # ids accepted both as a one-to-one request and as a group child (possible on an unordered destination,
+                       # where indices are not checked): GetStatus answers the one-to-one record, the id says nothing about the group
+    plain = set()
+    for st in parse_trace(h, obs):
+        if st[0] == "block":
+            b = st[1]
+            if not b.ok:
+                continue
+            for i, (tx, rc) in enumerate(zip(b.txs, b.rcs)):
+                if tx.kind != "ibtp" or tx.id is None or not rc.ok:
+                    continue
+                if tx.typ == "req":
+                    decl = _group_of(tx)
+                    if decl is None or tx.id not in decl:
+                        if tx.group is None:
+                            plain.add(tx.id)
+                            if tx.id in of_child:
+                                ambiguous.add(tx.id)
+                        continue
+                    if tx.id in plain:
+                        ambiguous.add(tx.id)
+                    key = (tx.frm, frozenset(decl))
+                    g = groups.get(key)
+                    if g is None:
+                        g = groups[key] = Group(tx.frm, decl)
+                        T = tx.timeout
+                        g.deadline = b.h + T if 0 < T < MAXU64 - b.h else None
+                    g.begun.add(tx.id)
+                    of_child[tx.id] = key
+                    if rc.ret == "begin_failure" and not g.failed:
+                        g.failed, g.failed_at = True, b.h
+                        _check_notified(hits, b, g, tx.id, "begin-failure")
+                elif tx.typ in ("ok", "fail") and tx.id in of_child:
+                    g = groups[of_child[tx.id]]
+                    if tx.typ == "ok" and not g.failed:
+                        g.succeeded.add(tx.id)
+                        if g.succeeded == g.decl:
+                            g.finished = True
+                    elif tx.typ == "fail" and not g.failed and not g.finished:
+                        g.failed, g.failed_at = True, b.h
+                        _check_notified(hits, b, g, tx.id, "failure-receipt")
+            for key, g in groups.items():
+                if g.deadline == b.h and not g.failed and not g.finished:
+                    g.failed, g.failed_at = True, b.h
+                    src = key[0].split(":")[0]
+                    listed = set(b.timeout.get(src, []))
+                    missing = sorted(c for c in g.begun if c not in listed)
+                    if missing:
+                        hits.append(Hit("C05/timeout-source-not-told", f"group of {key[0]} timed out in block {b.h}: the source chain {src} is not told about {missing}", detail=b.raw))
+                    for c in sorted(g.succeeded):
+                        dst = c.split("-")[1].split(":")[1]
+                        if c not in b.timeout.get(dst, []):
+                            hits.append(Hit("C05/timeout-destination-not-told", f"group of {key[0]} timed out in block {b.h}: destination {dst} is not told to roll back the succeeded child {c}", detail=b.raw))
+        elif st[0] == "q" and st[1] == "status" and st[2] in of_child and st[2] not in ambiguous and st[3].isdigit():
+            g = groups[of_child[st[2]]]
+            val = int(st[3])
+            if val == 3 and g.succeeded != g.decl:
+                hits.append(Hit("C05/success-without-all-children", f"group status of {st[2]} is SUCCESS but only {sorted(g.succeeded)} of {sorted(g.decl)} reported success"))
+            if val == 3 and g.failed:
+                hits.append(Hit("C05/success-after-failure", f"group status of {st[2]} is SUCCESS although the group failed in block {g.failed_at}"))
+            if g.failed and val in (0,):
+                hits.append(Hit("C05/still-begin-after-failure", f"group status of {st[2]} is BEGIN although the group failed in block {g.failed_at}"))
+    return hits
+
+
+def _check_notified(hits, b, g, culprit, why):
+    """in the block where the group fails, the source is told to roll back every other begun child and every destination
+    holding an already-succeeded child is told to roll that child back"""
+    src = g.frm.split(":")[0]
+    others = sorted(c for c in g.begun if c != culprit)
+    listed_src = set(b.multi.get(src, []))
+    missing = [c for c in others if c not in listed_src]
+    if missing:
+        hits.append(Hit(f"C05/source-not-told/{why}", f"group of {g.frm} failed in block {b.h} ({why} of {culprit}): the source chain {src} is not told to roll back {missing}", detail=b.raw))
+    for c in sorted(g.succeeded):
+        if c == culprit:
+            continue
+        dst = c.split("-")[1].split(":")[1]
+        if c not in b.multi.get(dst, []):
+            hits.append(Hit(f"C05/dst-not-told-to-rollback/{why}", f"group of {g.frm} failed in block {b.h} ({why} of {culprit}): destination chain {dst} is not told to roll back the succeeded child {c}", detail=b.raw))
+    for chain, ids in b.multi.items():
+        for c in ids:
+            if c in g.decl and chain != src and chain != c.split("-")[1].split(":")[1]:
+                hits.append(Hit(f"C05/wrong-chain-told/{why}", f"chain {chain} is told to roll back {c}, which is neither its source nor its destination", detail=b.raw))
+
+
+def tags_c05(h, obs):
+    t = set()
+    for st in parse_trace(h, obs):
+        if st[0] == "block" and st[1].ok:
+            if st[1].multi:
+                t.add("multi-notified")
+            for tx, rc in zip(st[1].txs, st[1].rcs):
+                if tx.kind == "ibtp" and tx.group is not None and rc.ok:
+                    t.add("group-child:" + (rc.ret or "begin"))
+        if st[0] == "q" and st[1] == "status" and st[3] == "3":
+            t.add("status:success")
+    return t
